@@ -952,10 +952,35 @@ static int tuple_cmp(const skey_t *a, const skey_t *b) {
     }
     return 0;
 }
+/* keys are produced by every tagged producer in turn: Put64, the fixed-width quick macro given an expression
+ * argument, and an in-place add that arrives at the value */
+static unsigned g_c05_producer;
+static int c05_encode(uint8_t *e, uint64_t v) {
+    switch (g_c05_producer % 3) {
+    case 1: {
+        varintWidth w = varintTaggedLenQuick(v | g_zero);
+        g_ctx = "varintTaggedPut64FixedWidthQuick_";
+        varintTaggedPut64FixedWidthQuick_(e + g_zoff, v | g_zero, w);
+        return (int)w;
+    }
+    case 2: {
+        uint64_t d = 2 + (v % 254);
+        if (v >= d && v - d <= (uint64_t)INT64_MAX - 300 && v <= (uint64_t)INT64_MAX) {
+            g_ctx = "varintTaggedAddGrow";
+            varintTaggedPut64(e, v - d);
+            return (int)varintTaggedAddGrow(e, (int64_t)d);
+        }
+    }
+    /* fall through */
+    default:
+        g_ctx = "varintTaggedPut64";
+        return (int)varintTaggedPut64(e, v);
+    }
+}
 static void c05_pair(uint64_t a, uint64_t b, const char *gen) {
     uint8_t ea[9], eb[9];
-    g_ctx = "varintTaggedPut64";
-    int la = varintTaggedPut64(ea, a), lb = varintTaggedPut64(eb, b);
+    g_c05_producer++;
+    int la = c05_encode(ea, a), lb = c05_encode(eb, b);
     int m = la < lb ? la : lb;
     int c = sgn(memcmp(ea, eb, (size_t)m));
     int want = (a > b) - (a < b);
